@@ -170,9 +170,13 @@ def generate(rnd, tier, scale):
             )
             continue
         srcs = list(range(ns))
+        if E.branch_estimate(dict(sources=sources, srclists=[{"srcs": srcs}])) > 4000:
+            continue  # a legitimately slow evaluation (hundreds of thousands of callback calls) is not a finding
         prime = {"prime": True} if rnd.random() < 0.15 and not any(s.get("raw") or s.get("which_form") in ("iter", "gen") for s in sources) else {}
         if rnd.random() < 0.2 and not any(s.get("which_form") in ("iter", "gen") for s in sources):
-            srcs.append(rnd.randrange(ns))  # the same object passed for two parameters: two independent sources
+            j = rnd.randrange(ns)
+            if E.branch_estimate(dict(sources=sources, srclists=[{"srcs": srcs + [j]}])) <= 4000:
+                srcs.append(j)  # the same object passed for two parameters: two independent sources
         yield dict(
             k="prog",
             via=via,
